@@ -6,6 +6,8 @@ Reading of the property: a watcher is whoever called Watch (or is the parent: sp
 a watcher of its child) and has not called UnWatch since; it must get exactly one Terminated when the
 watched actor terminates (stop of any kind, or the shutdown phase of a restart), provided it is running and
 is not itself being stopped by the same call.  A RESTART of the watcher is not an UnWatch.
+A SUSPENDED actor (failed, parked by supervision) is alive: it can be watched and its later termination owes
+the Terminated like any other; as a watcher it cannot receive (Tell answers ErrDead), so nothing is owed to it.
 -/
 namespace GoaktVerif.Spec.C10
 
@@ -14,6 +16,7 @@ inductive SOp where
   | child (p x : Nat)
   | watch (a b : Nat)
   | unwatch (a b : Nat)
+  | fail (x : Nat)                         -- x fails and is suspended by supervision (alive, not running)
   | stop (x : Nat)
   | restart (x : Nat)
   | stopAll
@@ -25,6 +28,7 @@ structure St where
   watch : List (Nat × Nat) := []         -- (watcher, watchee)
   expect : List (Nat × Nat) := []        -- one entry per Terminated(y) owed to w: (w, y)
   racy : List Nat := []                  -- actors stopped by the system-wide stop (deliveries not judged)
+  suspended : List Nat := []             -- alive but suspended: cannot receive, still can be watched
   deriving Repr
 
 def St.sub (s : St) : Nat → Nat → List Nat
@@ -36,20 +40,24 @@ def addEdge (e : Nat × Nat) (l : List (Nat × Nat)) : List (Nat × Nat) := if l
 def St.step (s : St) : SOp → St
   | .spawn x => { s with running := x :: s.running }
   | .child p x =>
-    if s.running.contains p then
+    if s.running.contains p && !s.suspended.contains p then
       { s with parent := (x, p) :: s.parent, running := x :: s.running, watch := addEdge (p, x) s.watch }
     else s
+  | .fail x => if s.running.contains x && !s.suspended.contains x then { s with suspended := x :: s.suspended } else s
   | .watch a b => if s.running.contains a && s.running.contains b then { s with watch := addEdge (a, b) s.watch } else s
   | .unwatch a b => { s with watch := s.watch.filter (· != (a, b)) }
   | .stop x =>
     let dead := (s.sub 8 x).filter (s.running.contains ·)
-    let owed := s.watch.filter (fun e => dead.contains e.2 && !dead.contains e.1 && s.running.contains e.1)
+    let owed := s.watch.filter (fun e => dead.contains e.2 && !dead.contains e.1 && s.running.contains e.1
+                                        && !s.suspended.contains e.1)
     { s with expect := owed ++ s.expect
+             suspended := s.suspended.filter (!dead.contains ·)
              watch := s.watch.filter (fun e => !dead.contains e.1 && !dead.contains e.2)
              running := s.running.filter (!dead.contains ·) }
   | .restart x =>
     let dead := (s.sub 8 x).filter (s.running.contains ·)
-    let owed := s.watch.filter (fun e => dead.contains e.2 && !dead.contains e.1 && s.running.contains e.1)
+    let owed := s.watch.filter (fun e => dead.contains e.2 && !dead.contains e.1 && s.running.contains e.1
+                                        && !s.suspended.contains e.1)
     -- watchers of the restarted actors were told and released; the restarted actors keep what THEY watch;
     -- parent/child edges come back with the re-attach
     let kept := s.watch.filter (fun e => !dead.contains e.2)
@@ -57,7 +65,8 @@ def St.step (s : St) : SOp → St
     let back := match s.parent.find? (·.1 == x) with
       | some e => [(e.2, e.1)]
       | none => []
-    { s with expect := owed ++ s.expect, watch := (family ++ back).foldl (fun l e => addEdge e l) kept }
+    { s with expect := owed ++ s.expect, watch := (family ++ back).foldl (fun l e => addEdge e l) kept
+             suspended := s.suspended.filter (!dead.contains ·) }
   | .stopAll => { s with racy := s.running ++ s.racy, running := [], watch := [] }
 
 def run (ops : List SOp) : St := ops.foldl St.step {}
